@@ -800,6 +800,8 @@ MUTANTS = [
            lambda f, t: replace_expr(f, lambda e: isinstance(e, ast.Call) and u(e.func) == "weakref.finalize", "weakref.finalize(obj_or_class, self.unregister, objectId)")),
     Mutant("C16", "weak-finalizer-callback-without-the-identity-test", "C16-R5", S, "Daemon.__unregister_collected",
            lambda f, t: replace_stmt(f, lambda s: isinstance(s, ast.If), stmts("self.unregister(objectId)"))),
+    Mutant("C16", "urifor-hands-out-whatever-the-text-parses-to", "C16-R3", S, "Daemon.uriFor",
+           lambda f, t: delete_stmt(f, lambda s: isinstance(s, ast.If) and ".object" in u(s.test))),
     Mutant("C18", "communication-timeout-set-by-the-worker", "C18-R3", ST, "SocketServer_Threadpool.events",
            lambda f, t: (delete_stmt(f, lambda s: isinstance(s, ast.If) and "COMMTIMEOUT" in u(s.test)),
                          find_fn(t, "ClientConnectionJob.__call__").body.insert(0, stmts("if config.COMMTIMEOUT:\n    self.csock.timeout = config.COMMTIMEOUT")[0])), also=("C05",)),
